@@ -99,10 +99,20 @@ def case_of(e):
 
 
 def node_of(n):
+    """(file "n" "text") | (special "n") | (dir "n" node..) | (link "n" (file "text")|special|dangling|loop)
+    | (link "n" (dir node..)) -> dict; a link is {"link": name, "to": "file"|"special"|"dangling"|"loop"|"dir", ..}"""
     if n[0] == "file":
         return {"file": sx_unstring(n[1]), "text": sx_unstring(n[2])}
     if n[0] == "special":
         return {"special": sx_unstring(n[1])}
+    if n[0] == "link":
+        name, t = sx_unstring(n[1]), n[2]
+        if isinstance(t, str):
+            return {"link": name, "to": t}
+        if t[0] == "file":
+            return {"link": name, "to": "file", "text": sx_unstring(t[1])}
+        assert t[0] == "dir", t[0]
+        return {"link": name, "to": "dir", "children": [node_of(c) for c in t[1:]]}
     return {"dir": sx_unstring(n[1]), "children": [node_of(c) for c in n[2:]]}
 
 
@@ -111,11 +121,19 @@ def node_sx(n):
         return f"(file {sx_string(n['file'])} {sx_string(n['text'])})"
     if "special" in n:
         return f"(special {sx_string(n['special'])})"
+    if "link" in n:
+        if n["to"] == "file":
+            t = f"(file {sx_string(n['text'])})"
+        elif n["to"] == "dir":
+            t = "(" + " ".join(["dir"] + [node_sx(c) for c in n["children"]]) + ")"
+        else:
+            t = n["to"]
+        return f"(link {sx_string(n['link'])} {t})"
     return "(dir " + " ".join([sx_string(n["dir"])] + [node_sx(c) for c in n["children"]]) + ")"
 
 
 def node_name(n):
-    return n.get("file") or n.get("special") or n.get("dir")
+    return n.get("file") or n.get("special") or n.get("link") or n.get("dir")
 
 
 def case_sx(c):
@@ -155,6 +173,8 @@ def argv_of(c):
 
 
 def flat_files(nodes, prefix=""):
+    """path -> text of a regular file / a link to one; None for a directory ("path/"), a special file and the
+    other links ("path -> what")"""
     out = {}
     for n in nodes:
         p = prefix + node_name(n)
@@ -162,22 +182,49 @@ def flat_files(nodes, prefix=""):
             out[p] = n["text"]
         elif "special" in n:
             out[p] = None
+        elif "link" in n and n["to"] == "file":
+            out[p + " -> (regular file)"] = n["text"]
+        elif "link" in n and n["to"] != "dir":
+            out[p + " -> (" + n["to"] + ")"] = None
         else:
-            out[p + "/"] = None
+            out[p + ("/" if "dir" in n else "/ -> (directory)")] = None
             out.update(flat_files(n["children"], p + "/"))
     return out
 
 
 def recipe(c):
-    """shell commands that rebuild the case in an empty directory and run it"""
-    lines = []
-    for p, t in flat_files(c["files"]).items():
-        if p.endswith("/"):
-            lines.append("mkdir -p " + shlex.quote(p))
-        elif t is None:
-            lines.append("ln -s /dev/null " + shlex.quote(p))
-        else:
-            lines.append("printf %s " + shlex.quote(t) + " > " + shlex.quote(p))
+    """shell commands that rebuild the case in an empty directory `in` (link targets in `store`) and run it"""
+    lines = ["mkdir in store && cd in"]
+    k = [0]
+
+    def fresh():
+        k[0] += 1
+        return "$OLDPWD/store/t%d" % k[0]
+
+    def build(nodes, prefix):
+        for n in nodes:
+            p = shlex.quote(prefix + node_name(n))
+            if "file" in n:
+                lines.append("printf %s " + shlex.quote(n["text"]) + " > " + p)
+            elif "special" in n:
+                lines.append("ln -s /dev/null " + p + "   # or a socket")
+            elif "dir" in n:
+                lines.append("mkdir -p " + p)
+                build(n["children"], prefix + node_name(n) + "/")
+            elif n["to"] == "file":
+                t = fresh()
+                lines.append("printf %s " + shlex.quote(n["text"]) + ' > "' + t + '" && ln -s "' + t + '" ' + p)
+            elif n["to"] == "special":
+                lines.append("ln -s /dev/null " + p)
+            elif n["to"] == "dangling":
+                lines.append('ln -s "' + fresh() + '" ' + p + "   # missing target")
+            elif n["to"] == "loop":
+                lines.append("ln -s . " + p)
+            else:
+                t = fresh()
+                lines.append('mkdir "' + t + '" && ln -s "' + t + '" ' + p)
+                build(n["children"], prefix + node_name(n) + "/")
+    build(c["files"], "")
     if c["save"] is not None:
         lines.append("mkdir -p " + shlex.quote(c["save"]))
     lines.append("anthem " + " ".join(shlex.quote(a) for a in argv_of(c)))
@@ -276,6 +323,13 @@ def shrink(c, exe, scratch, rounds=12):
                         for k in range(len(parts)):
                             t = "\n".join(parts[:k] + parts[k + 1:])
                             out.append(rebuild(nodes[:i] + [dict(n, text=t)] + nodes[i + 1:]))
+                elif "link" in n and n["to"] == "file":
+                    # the same case with a regular file in place of the link
+                    out.append(rebuild(nodes[:i] + [{"file": n["link"], "text": n["text"]}] + nodes[i + 1:]))
+                elif "link" in n and n["to"] == "dir":
+                    out.append(rebuild(nodes[:i] + [{"dir": n["link"], "children": n["children"]}] + nodes[i + 1:]))
+                    walk(n["children"], lambda ch, i=i, n=n, nodes=nodes, rebuild=rebuild:
+                         rebuild(nodes[:i] + [dict(n, children=ch)] + nodes[i + 1:]))
                 elif "dir" in n:
                     walk(n["children"], lambda ch, i=i, n=n, nodes=nodes, rebuild=rebuild:
                          rebuild(nodes[:i] + [dict(n, children=ch)] + nodes[i + 1:]))
